@@ -26,6 +26,7 @@ import IgrisModel.C10.LemmasIter
 import IgrisModel.C10.LemmasPtr
 import IgrisModel.C10.LemmasAddr
 import IgrisModel.C10.Lemmas3b
+import IgrisModel.C10.Lemmas3c
 namespace Igris.C10
 
 /-! ## Fixed-block pools (pool_head / igris::pool / static_object_pool)
@@ -1776,6 +1777,98 @@ theorem mallocA_null_iff (base : Nat) (cfg : Cfg) (h : Heap) (n : Nat) :
 
 example : (mallocA (2 ^ 46) ⟨64, 0⟩ ⟨72, [], [(0, 64)]⟩ (2 ^ 64 - 64)).ret = none := by decide
 
+
+/-- EXACT characterisation of the NULL answers of realloc WITH 64-bit sizes and addresses
+(`reallocA`, what the driver runs), for every reachable heap, every live block, any `base`:
+NULL ⇔ the rounding of the request wraps, or `ptr + len` wraps (`cp < cp1`), or the request
+exceeds the block ∧ no free chunk can hold it ∧ the chunk directly above is not a sufficient
+free chunk ∧ the break cannot move: without a heap end only for a block that is NOT the topmost
+chunk, when the chunk `malloc` would append crosses the top of the address space; with a heap
+end when `lim < p + len` (topmost) resp. `lim < brk + len + 8`. -/
+theorem reallocA_null_iff (base : Nat) (cfg : Cfg) (ok : CfgOK cfg) (h : Heap) (p n sz : Nat) (r : Res)
+    (hr : Reach cfg h) (hl : lookup (p - 8) h.live = some sz) (hs : reallocA base cfg h (some p) n = some r) :
+    r.ret = none ↔
+      (n % cfg.W ≠ 0 ∧ n > SIZE_MAX - (cfg.W - n % cfg.W)) ∨
+      (base + p + minLen (roundLen cfg.W n)) % 2 ^ 64 < base + p - 8 ∨
+      (sz < minLen (roundLen cfg.W n) ∧ (∀ f ∈ h.flp, f.2 < minLen (roundLen cfg.W n)) ∧
+        (¬ ∃ f ∈ h.flp, f.1 = p + sz ∧ minLen (roundLen cfg.W n) - sz ≤ f.2 + 8) ∧
+        (if cfg.lim = 0 then
+          h.brk ≠ p + sz ∧ (minLen (roundLen cfg.W n) > SIZE_MAX - 8 ∨
+            minLen (roundLen cfg.W n) + 8 > SIZE_MAX - (base + h.brk))
+         else if h.brk = p + sz then cfg.lim < p + minLen (roundLen cfg.W n)
+         else cfg.lim < h.brk + minLen (roundLen cfg.W n) + 8)) := by
+  have hsz8 : 8 ≤ sz := ((hr.inv ok).wfL _ (lookup_mem hl)).1
+  obtain ⟨_, hlen8, _⟩ := reqLen_props cfg ok n
+  have hid := reqLen_idem cfg ok n
+  have h3 := reachesStep3_iff cfg h (minLen (roundLen cfg.W n))
+  unfold reallocA at hs
+  split at hs
+  · rename_i hw
+    simp only [Option.some.injEq] at hs; subst hs
+    exact ⟨fun _ => Or.inl hw, fun _ => rfl⟩
+  · rename_i hw
+    simp only at hs
+    split at hs
+    · rename_i hwt
+      simp only [Option.some.injEq] at hs; subst hs
+      refine ⟨fun _ => Or.inr (Or.inl ?_), fun _ => rfl⟩
+      unfold reallocWrapTest at hwt
+      simpa using hwt
+    · rename_i hwt
+      have hwt' : ¬ (base + p + minLen (roundLen cfg.W n)) % 2 ^ 64 < base + p - 8 := by
+        unfold reallocWrapTest at hwt; simpa using hwt
+      split at hs
+      · rename_i href
+        simp only [Option.some.injEq] at hs; subst hs
+        refine ⟨fun _ => Or.inr (Or.inr ?_), fun _ => rfl⟩
+        simp only [Bool.and_eq_true] at href
+        obtain ⟨hmv, hrf⟩ := href
+        unfold mallocRefusesA at hrf
+        simp only [Bool.and_eq_true, beq_iff_eq] at hrf
+        obtain ⟨⟨hl0, hst⟩, hbw⟩ := hrf
+        have hall := h3.1 hst
+        by_cases hbig : 8 < minLen (roundLen cfg.W n)
+        · rw [hid hbig] at hall hbw
+          obtain ⟨h1, h2, h3'⟩ := (reachesMove_iff cfg h p _ sz hl hall).1 hmv
+          refine ⟨h1, hall, h2, ?_⟩
+          rw [if_pos hl0]
+          refine ⟨h3', ?_⟩
+          unfold brkWraps at hbw; simpa using hbw
+        · -- len = 8 ≤ sz: the request is no growth, `reachesMove` is false
+          exfalso
+          have hle : minLen (roundLen cfg.W n) ≤ sz := by omega
+          unfold reachesMove at hmv
+          rw [hl] at hmv
+          simp [hle] at hmv
+      · rename_i href
+        have hrn := realloc_null_iff cfg ok h p n sz r hr hl hs
+        rw [hrn]
+        constructor
+        · rintro ⟨h1, hl0, hall, hno, hif⟩
+          right; right
+          refine ⟨h1, hall, hno, ?_⟩
+          rw [if_neg hl0]; exact hif
+        · rintro (hc | hc | ⟨h1, hall, hno, hif⟩)
+          · exact absurd hc hw
+          · exact absurd hc hwt'
+          · by_cases hl0 : cfg.lim = 0
+            · rw [if_pos hl0] at hif
+              exfalso; apply href
+              have hbig : 8 < minLen (roundLen cfg.W n) := by omega
+              simp only [Bool.and_eq_true]
+              refine ⟨(reachesMove_iff cfg h p _ sz hl hall).2 ⟨h1, hno, hif.1⟩, ?_⟩
+              unfold mallocRefusesA brkWraps
+              simp only [Bool.and_eq_true, beq_iff_eq, Bool.or_eq_true, decide_eq_true_eq]
+              rw [hid hbig]
+              refine ⟨⟨hl0, ?_⟩, hif.2⟩
+              apply h3.2
+              rw [hid hbig]; exact hall
+            · rw [if_neg hl0] at hif
+              exact ⟨h1, hl0, hall, hno, hif⟩
+
+
+example : ∃ r, reallocA (2 ^ 46) ⟨64, 0⟩ ⟨144, [], [(72, 64), (0, 64)]⟩ (some 8) (2 ^ 64 - 2 ^ 46 - 64) = some r ∧ r.ret = none :=
+  ⟨_, rfl, by decide⟩
 
 /-- WHAT THE DRIVER PRINTS after a successful `realloc` of a block that the harness had filled
 with the pattern `seed` over its `oldn ≤ sz` requested bytes: the digest of the first
